@@ -302,6 +302,22 @@ func (s *Service) Start(
 	return nil
 }
 
+// updateStatusIfCurrent stores a status decided by the cleanup goroutine of rp
+// after it had marked the pipeline recovering - unless a newer run has been
+// published for the pipeline in the meantime. StatusRecovering admits a user
+// Start; once that run is live the pipeline's status belongs to it, and a late
+// "degraded" (or "stopped") from the superseded run would leave a live run that
+// can be neither stopped (wrong status) nor started (connectors in use). The
+// start lock makes the check and the write atomic with respect to Start.
+func (s *Service) updateStatusIfCurrent(ctx context.Context, rp *runnablePipeline, status pipeline.Status, errMsg string) (superseded bool, err error) {
+	unlock := s.lockStart(rp.pipeline.ID)
+	defer unlock()
+	if cur, ok := s.runningPipelines.Get(rp.pipeline.ID); ok && cur != rp {
+		return true, nil
+	}
+	return false, s.pipelines.UpdateStatus(ctx, rp.pipeline.ID, status, errMsg)
+}
+
 // lockStart serializes Start calls for one pipeline ID.
 func (s *Service) lockStart(pipelineID string) (unlock func()) {
 	m, _ := s.startLocks.LoadOrStore(pipelineID, &sync.Mutex{})
@@ -1122,7 +1138,11 @@ func (s *Service) runPipeline(ctx context.Context, rp *runnablePipeline) error {
 				if recoveryErr := s.recoverPipeline(ctx, rp); cerrors.Is(recoveryErr, errShutdownDuringRecovery) {
 					// a shutdown began while we were waiting to restart
 					err = nil
-					if updateErr := s.pipelines.UpdateStatus(ctx, rp.pipeline.ID, pipeline.StatusSystemStopped, ""); updateErr != nil {
+					superseded, updateErr := s.updateStatusIfCurrent(ctx, rp, pipeline.StatusSystemStopped, "")
+					if superseded {
+						return nil
+					}
+					if updateErr != nil {
 						return updateErr
 					}
 				} else if recoveryErr != nil {
@@ -1131,7 +1151,13 @@ func (s *Service) runPipeline(ctx context.Context, rp *runnablePipeline) error {
 						Str(log.PipelineIDField, rp.pipeline.ID).
 						Msg("pipeline recovery failed")
 
-					if updateErr := s.pipelines.UpdateStatus(ctx, rp.pipeline.ID, pipeline.StatusDegraded, fmt.Sprintf("%+v", recoveryErr)); updateErr != nil {
+					superseded, updateErr := s.updateStatusIfCurrent(ctx, rp, pipeline.StatusDegraded, fmt.Sprintf("%+v", recoveryErr))
+					if superseded {
+						// the user started the pipeline again while it was marked
+						// recovering: that run owns the pipeline and its status now
+						return nil
+					}
+					if updateErr != nil {
 						return updateErr
 					}
 
